@@ -120,6 +120,23 @@ class Root(object):
         return b'args'
 
     @cherrypy.expose
+    def limit(self, *args, **kw):        # request.body.maxbytes = 1000
+        return b'limit %d' % sum(_total(v) for v in kw.values())
+
+    @cherrypy.expose
+    def lcache(self, *args, **kw):       # a cached resource whose response carries validators
+        cherrypy.response.headers['Last-Modified'] = 'Sun, 06 Nov 1994 08:49:37 GMT'
+        return b'lcache'
+
+    @cherrypy.expose
+    def noargs(self):
+        return b'noargs'
+
+    @cherrypy.expose
+    def kwonly(self, a, *, k='d'):
+        return b'kwonly'
+
+    @cherrypy.expose
     def form(self, *args, **kw):
         return b'form %d' % sum(_total(v) for v in kw.values())
 
@@ -242,6 +259,8 @@ class Root(object):
     @cherrypy.expose
     def combo(self, *args, **kw):
         cherrypy.session['n'] = cherrypy.session.get('n', 0) + 1
+        if kw.get('regen'):
+            cherrypy.session.regenerate()
         return 'combo ' + 'h\xe9llo \u20ac ' * 30
 
     @cherrypy.expose
@@ -273,6 +292,31 @@ class Dir(object):
     @cherrypy.expose
     def index(self, **kw):
         return b'sub index'
+
+
+class CallableHandler(object):
+    """A page handler that is an object with __call__ (fixed signature)."""
+    exposed = True
+
+    def __call__(self, a, b='x'):
+        return b'obj'
+
+
+def debug_twin(conf):
+    """The same resources once more under /d, every enabled tool with `debug: True` (the tools then format
+    what the client sent into log lines: configuration dimension of the statement)."""
+    out = {}
+    for section, opts in conf.items():
+        if section == '/':
+            continue
+        twin = dict(opts)
+        for k in opts:
+            parts = k.split('.')
+            if len(parts) == 3 and parts[0] == 'tools' and parts[2] == 'on':
+                twin['tools.%s.debug' % parts[1]] = True
+        out['/d' + section] = twin
+    out['/d'] = {'tools.trailing_slash.debug': True}
+    return out
 
 
 def _get_ha1(realm, username):
@@ -329,6 +373,9 @@ def setup():
                      'tools.referer.accept_missing': True},
         '/rest': {'request.dispatch': cherrypy.dispatch.MethodDispatcher()},
         '/tsx': {'tools.trailing_slash.extra': True},
+        '/limit': {'request.body.maxbytes': 1000},
+        '/lcache': {'tools.caching.on': True, 'tools.caching.antistampede_timeout': 0.001, 'tools.etags.on': True,
+                    'tools.etags.autotags': True},
         '/szip': {'tools.staticdir.on': True, 'tools.staticdir.dir': static, 'tools.staticdir.index': 'index.html',
                   'tools.gzip.on': True, 'tools.gzip.mime_types': ['text/*'], 'tools.encode.on': True,
                   'tools.etags.on': True},
@@ -345,12 +392,17 @@ def setup():
         '/vhost': {'request.dispatch': cherrypy.dispatch.VirtualHost(
             **{'one.example': '/plain', 'two.example:8080': '/sub', 'localhost:8080': ''})},
     }
+    conf.update(debug_twin(conf))
+    conf['/d/fsess']['tools.sessions.storage_path'] = sess
     # digest nonces carry a timestamp: a fixed clock for auth_digest keeps every case replayable bit for bit
     auth_digest.time = _FixedClock()
     root = Root()
-    root.sub = Dir()
-    root.psub = Dir()
-    root.osub = Dir()
+    root.d = Root()
+    for r in (root, root.d):
+        r.sub = Dir()
+        r.psub = Dir()
+        r.osub = Dir()
+        r.obj = CallableHandler()
     app = cherrypy.Application(root, '', conf)
     cap = _Capture()
     # failures before the tool hooks exist (process_headers) are not logged by anything: observe the
